@@ -8,6 +8,8 @@ import EaselModel.Sqio.FetchMore
 import EaselModel.Sqio.GeomBridge
 import EaselModel.Sqio.TrackBytes
 import EaselModel.Sqio.TrackReader
+import EaselModel.Sqio.TrackHeader
+import EaselModel.Sqio.TrackIndex
 /-! # C07 — fetching by key, number or coordinates returns what a sequential scan returns
 
 Property theorems only (proofs are glue on `Sqio/Geometry.lean`, `Sqio/Tracker.lean`).
@@ -144,6 +146,50 @@ theorem readInfo_body_tracker (a : Ascii) (sq : Sq) (t : Track) (fuel : Nat) (h 
     (scanLoop false fuel a sq).1.trk
       = scanRec t (TrackReader.recOfData a.inmap ((DataScan.fileFrom a).takeWhile (BodySpec.isData a.inmap))) :=
   TrackReader.infoBody_trk a sq t fuel h ht hm hfuel hst
+
+/-- `header_fasta`, when it succeeds, resets `prv*` / `cur*` and changes NOTHING else of the tracker (`loadmem`, `loadbuf`, `nextchar` and
+    the header loops never touch it): the widths and the two maxima survive from record to record -/
+theorem header_resets_only_prv_cur (a : Ascii) (sq : Sq) (h : (headerFasta a sq).2.2 = .ok) :
+    (headerFasta a sq).1.trk = Tracker.step a.trk Ev.hdr :=
+  TrackHeader.headerFasta_trk a sq h
+
+/-- **one `sqascii_ReadInfo` of `create_ssi_index` = one step of `scanFile`, for EVERY read-block size.** From a ready FASTA handle
+    standing in front of a record (`ReadSpec.Ready`: any block size, cursor on a byte), a successful `ReadInfo` — header, counting loop
+    over as many read blocks as it takes, end of record — leaves the tracker `scanRec (tracker before) (line counts of the record's data
+    bytes)`; the data bytes are the file bytes behind the header line (`headerL` = the header parser of `C04.read_all_eq_parseFasta`)
+    up to the first byte that is not sequence data. So the index-building scan computes `scanFile` of the records' line counts, and
+    `bplrpl_sound` is a statement about the `bpl`, `rpl` that `create_ssi_index` reads off the handle (that last read and the
+    induction over the records are the only steps left to the differential run). -/
+theorem readInfo_tracker_step (a : Ascii) (sq : Sq) (R : ReadSpec.Ready a sq) (hl : Sim.Live a) (hok : (readInfo a sq).2.2 = .ok) :
+    (readInfo a sq).1.trk =
+      scanRec a.trk (TrackReader.recOfData a.inmap
+        (((HeaderSpec.headerL a.file.size sq (DataScan.fileFrom a)).2.2).takeWhile (BodySpec.isData a.inmap))) :=
+  TrackHeader.readInfo_trk a sq R hl hok
+
+/-- **the whole index-building scan = `scanFile`, for EVERY read-block size.** `buildIndexLoop` is the `ReadInfo` loop of
+    `create_ssi_index`; from any ready FASTA handle, when it ends at EOF the widths `rpl`, `bpl` and the two maxima in the handle are
+    those of the fold of `scanRec` over `countsL` = the line counts of the records on the remaining file bytes (induction over the
+    records with `readInfo_tracker_step`; a `ReadInfo` answering EOF leaves them untouched). -/
+theorem index_scan_tracker (fuel : Nat) (a : Ascii) (s : Ssi) (a' : Ascii) (s' : Ssi) (R : ReadSpec.Ready a ({} : Sq))
+    (h : buildIndexLoop fuel a s = some (a', s')) :
+    TrackIndex.core a'.trk
+      = TrackIndex.core ((TrackIndex.countsL a.inmap a.file.size fuel (DataScan.fileFrom a)).foldl scanRec a.trk) :=
+  TrackIndex.buildIndex_trk fuel a s a' s' R h
+
+/-- **(1) END TO END: the index-building scan is sound (FASTA, every read-block size).** A fresh handle, the `ReadInfo` loop of
+    `create_ssi_index` run to EOF: if the handle then holds `rpl = p > 0` and `bpl = q > 0` — the very test `esl-sfetch --index` /
+    `easel index` make before `esl_newssi_SetSubseq` — then EVERY record the scan went over has the line geometry `(q, p)`:
+    `bplrpl_sound` composed with the reader loop, the header parser and the byte fold of `seebuf`. (What remains tied only by the
+    differential run: that `recOfData` of a record's bytes in `countsL` and the `segs`/`rest` of `fetchSubseq_eq_scan_slice_*_tracked`
+    name the same bytes — `recOfData_lines` — and that the tool stores the two numbers it read.) -/
+theorem index_scan_sound (fuel : Nat) (a : Ascii) (s : Ssi) (a' : Ascii) (s' : Ssi) (R : ReadSpec.Ready a ({} : Sq)) (h0 : a.trk = {})
+    (h : buildIndexLoop fuel a s = some (a', s')) (p q : Int) (hp : 0 < p) (hq : 0 < q) (hr : a'.trk.rpl = p) (hb : a'.trk.bpl = q) :
+    ∀ rc ∈ TrackIndex.countsL a.inmap a.file.size fuel (DataScan.fileFrom a), Geom q p rc :=
+  TrackIndex.buildIndex_sound fuel a s a' s' R h0 h p q hp hq hr hb
+
+/-- non-vacuity: the model's index-building scan of `>a\nACGT\nACGT\nAC\n` with read blocks of 2 bytes ends with rpl = 4, bpl = 5 -/
+example : (buildIndexLoop 8 (ParseFasta.openFasta FetchSpec.demoA 2 0) {}).map (fun r => (r.1.trk.rpl, r.1.trk.bpl)) = some (4, 5) := by
+  decide +kernel
 
 /-- the data bytes of a record really are terminated lines followed by an unterminated rest, and `recOfData` counts exactly them -/
 theorem recOfData_lines (inmap : Bytes) (d : List UInt8) :
